@@ -83,6 +83,7 @@ static unsigned sched_prob;
 static uint32_t sched_rng;
 static unsigned long dp_index, next_preempt_at;
 static unsigned preempt_pick;
+static unsigned long naps_taken;
 static int have_preempt;
 static unsigned preempt_taken;
 
@@ -285,22 +286,31 @@ static int pick(int me) {
 		if (n == 1 && ne == 0) return cand[0];
 		/* decision point */
 		int choice = def;
+		uint64_t nap = 0;      /* a preempted thread may stay off the CPU for a while (3..15 ms): "long" preemption */
 		if (sched_random) {
 			if ((rng_next() & 0xff) < sched_prob) {
 				unsigned k = rng_next() % (unsigned) (n + ne);
 				if ((int) k < n) choice = cand[k];
 				else { choice = ext[k - (unsigned) n]; now_us = th[choice].wake; }
+				uint32_t r = rng_next();
+				if ((r & 7) == 0) nap = 3000 + (uint64_t) ((r >> 3) & 3) * 4000;
 			}
 		} else if (have_preempt && dp_index >= next_preempt_at) {
-			unsigned k = (unsigned) (preempt_pick & 0x7f) % (unsigned) (n + ne);
+			unsigned k = (unsigned) (preempt_pick & 0x1f) % (unsigned) (n + ne);
 			if ((int) k < n) choice = cand[k];
 			else { choice = ext[k - (unsigned) n]; now_us = th[choice].wake; }
+			if ((preempt_pick & 0x60) == 0x60) nap = 3000 + (uint64_t) ((preempt_pick >> 2) & 3) * 4000;
 			dp_index++;
 			load_preempt();
 			dp_index--;
 		}
 		dp_index++;
 		if (choice != def) preempt_taken++;
+		if (nap && choice != me && me >= 0 && me < nth && th[me].state == T_RUN) {
+			th[me].state = T_SLEEP;
+			th[me].wake = now_us + nap;
+			naps_taken++;
+		}
 		return choice;
 	}
 }
@@ -355,6 +365,7 @@ void vf_world_init(const uint8_t *s, size_t slen) {
 	sched_random = 0;
 	dp_index = 0;
 	preempt_taken = 0;
+	naps_taken = 0;
 	have_preempt = 0;
 	if (slen > 0 && (s[0] & 0x80)) {
 		sched_random = 1;
